@@ -217,7 +217,7 @@ def replay(ctx: Ctx, beh, conc, c, origin, model_factory=None, observer=None, se
 
 # ----------------------------------------------------------------------------- C -> S
 
-def random_program_gen(rng, end_t, maxev, p_fault, prios=(1, 5, 10), bad=("nan_abs", "nan_rel", "str_abs", "neg_tiny", "reinit"),
+def random_program_gen(rng, end_t, maxev, p_fault, prios=(1, 5, 10), bad=("nan_abs", "nan_rel", "str_abs", "neg_tiny", "reinit", "hstart", "hrun", "hstep"),
                        p_cancel=0.12, p_strat=0.0, p_endrep=0.0):
     def gen(rank, ctl):
         h = gen0(rank, ctl)
